@@ -53,6 +53,10 @@ TNext ==
      CASE e.k = "reset"   -> /\ parents' = << <<>> >> /\ branches' = [b \in {"main"} |-> 1]
                              /\ head' = [b |-> "main"] /\ tags' = {} /\ Last
        [] e.k = "op"      -> Apply(e) /\ Last
+       [] e.k = "gitout" -> /\ LET ok == IF e.fmt = "semver" THEN SVG!IsSemVer(e.text) /\ e.text[1] # 118
+                                          ELSE PPG!GreedyAccepts(e.text) /\ PPG!NormalOf(e.text) = e.text IN
+                               IF ok THEN TRUE ELSE PrintT("MISMATCH " \o ToString(l) \o " git-output-not-wellformed")
+                            /\ UNCHANGED gvars /\ Last
        [] e.k = "flowpair" -> /\ LET why == FlowPairReason(e) IN
                                  IF why = "ok" THEN TRUE ELSE PrintT("MISMATCH " \o ToString(l) \o " " \o why)
                               /\ UNCHANGED gvars /\ Last
